@@ -888,6 +888,9 @@ func encReplayOne(cfg Config, res *core.Result, c *encConfig, cache *encCache, b
 			if dec.Key == "right" && kv > 0 {
 				break
 			}
+			if kv > 0 && len(alts) > 0 && !thorough {
+				break // quick tier: both kinds of wrong key on the untouched ciphertext, one kind on altered ones
+			}
 			var msg []byte
 			var derr error
 			own := v.clone() // every decryption gets its own copy
